@@ -283,7 +283,12 @@ class CodeBuilder:
                 else:
                     return field.default_factory
         else:
-            return self.namespace.get(name, MISSING)
+            # like dataclasses, fall back to an inherited class attribute
+            default = getattr(self.cls, name, MISSING)
+            if isinstance(default, types.MemberDescriptorType):
+                # a field in __slots__ has no default value
+                default = MISSING
+            return default
 
     def add_type_modules(self, *types_: typing.Type) -> None:
         for t in types_:
